@@ -71,7 +71,7 @@ def cache(
                 await backend.set(_cache_key, result, expire=_ttl, tags=_tags)
             elif isinstance(cond_result, Exception):
                 await backend.set(_cache_key, RaiseException(result), expire=_ttl, tags=_tags)
-            if _exc:
+            if _exc is not None:
                 raise _exc
             return result
 
